@@ -53,13 +53,13 @@ ASSUMPTIONS = ["option string values are sequences of Unicode scalar values (no 
                "NaN payloads are not distinguished (the text form has a single NaN spelling)",
                "a field elided from the printed spec because it compares == to its default may come back as the default",
                "the reference parser in xv/c18_ref.py reads the documented grammar correctly"]
-JOB_TIMEOUT = {"quick": 300, "thorough": 2400}
+JOB_TIMEOUT = {"quick": 600, "thorough": 3600}
 
 SIZES = {
     "quick": {"rt_shards": 8, "rt_assign": 60, "as_shards": 2, "as_n": 2500, "pipe_shards": 2, "pipe_n": 800,
               "fuzz_shards": 8, "fuzz_n": 4000},
-    "thorough": {"rt_shards": 16, "rt_assign": 3000, "as_shards": 8, "as_n": 60000, "pipe_shards": 16, "pipe_n": 15000,
-                 "fuzz_shards": 32, "fuzz_n": 60000},
+    "thorough": {"rt_shards": 16, "rt_assign": 2000, "as_shards": 8, "as_n": 60000, "pipe_shards": 16, "pipe_n": 8000,
+                 "fuzz_shards": 32, "fuzz_n": 40000},
 }
 CPU_BUDGET = (0.5, 0.0005)  # seconds: a + b*len(input); measured normal cost is <= ~6 us per input character (linear)
 
